@@ -366,7 +366,18 @@ def transform_children(world, lib, reg, nv, VIS):
                       z3.Implies(z3.And(Dsub(S0, M0), z3.Or(z3.Not(b0), present(M0, k0))), Dsub(z3.Store(S0, k0, b0), M0)),
                       z3.Implies(z3.And(Dsub(S0, M0), z3.Select(S0, k0)), present(M0, k0)))
         return [], goal
-    return [Lemma("names_are_keys-rules", [("all", sub_all)], P)]
+    # ---- an unchanged tree returns itself: visits that hand every child back change nothing ---------------------------------------------------
+    iq = z3.Const("i_q", z3.IntSort())
+    sq, xq = z3.Const("s_idv", SCP.z3()), z3.Const("x_idv", CPOS.z3())
+    ES = z3.Empty(SCP.z3())
+    handed_back = lambda s_: z3.ForAll([iq], z3.Implies(z3.And(iq >= 0, iq < z3.Length(s_)), res_at(iq) == OR.some(REF.wrap(c_child(s_[iq]))).term), patterns=[res_at(iq)])
+    idv = lambda s_: z3.Implies(handed_back(s_), tchg.t(s_) == NS.empty().term)
+    unchanged = Lemma("identity-visits-change-nothing",
+                      [("base", lambda bank: ([], idv(ES))), ("step", lambda bank: ([idv(sq)], idv(mk_snoc(sq, xq))))], P,
+                      note="if every visit() call returns the very child it was given, the set of changed field names is empty -- so _transform_children returns an empty "
+                           "mapping (its contract), generic_visit returns the node itself (its contract), and, by induction on the height of the tree, a transformer "
+                           "without visit_* methods returns the tree it was given")
+    return [Lemma("names_are_keys-rules", [("all", sub_all)], P), unchanged]
 
 
 def concat_from_first(first, vmeth, vname, OM, VIS, CLS, SC):
